@@ -16,7 +16,7 @@ NAMES = ["a", "b", "c", "x1", "_p", "data", "values", "items", "0", "12", "é", 
 STRS = ["", "a", "hello world", "é名", "a.b/c", "it's \"q\"", "0", "None", "true", " lead", "x" * 40,
         "line\nbreak", "tab\t", "{}", "[1]", "1e5", "nan"]
 INTS = [0, 1, -1, 2, 7, 255, -128, 2 ** 31 - 1, -(2 ** 31), 2 ** 53, 2 ** 53 + 1, -(2 ** 62),
-        2 ** 63 - 1, -(2 ** 63)]
+        2 ** 63 - 1, -(2 ** 63), 2 ** 70, -(2 ** 65) - 1]
 SMALL_INTS = [0, 1, -1, 2, 3, 7, 100, -5, 2 ** 31, -(2 ** 40), 2 ** 53]
 FLOATS = ["0x0.0p+0", "-0x0.0p+0", "0x1.0p+0", "-0x1.8p+1", "0x1.999999999999ap-4", "inf", "-inf",
           "nan", "0x0.0000000000001p-1022", "0x1.fffffffffffffp+1023", "0x1.0p-20", "0x1.4p+3"]
@@ -586,7 +586,12 @@ def gen_tensor(rng):
 
 
 def gen_hashable(rng):
-    k = rng.weighted([("int", 3), ("str", 3), ("float", 1), ("bool", 1), ("none", 1)])
+    k = rng.weighted([("int", 3), ("str", 3), ("float", 1), ("bool", 1), ("none", 1), ("path", 1),
+                      ("tuple", 1)])
+    if k == "path":
+        return {"k": "path", "v": rng.pick(["a/b.txt", "rel", "/abs/x"])}
+    if k == "tuple":
+        return {"k": "tuple", "items": [gen_scalar(rng, ("str",)), gen_scalar(rng, ("int",))]}
     return gen_scalar(rng, (k,))
 
 
@@ -752,6 +757,8 @@ def sanitize(spec):
                 if has_float and x["k"] in ("int", "npscalar") and not isinstance(x["v"], (str, bool)) \
                         and abs(int(x["v"])) > 2 ** 53:
                     x["v"] = 7 if x["k"] == "int" else 1
+                if x["k"] == "int" and not (-(2 ** 63) <= int(x["v"]) < 2 ** 63):
+                    x["v"] = 9   # ints inside all-numeric containers stay within int64
             if s["k"] == "set":
                 # members that became numerically equal would collapse: de-duplicate
                 seen, keep = [], []
